@@ -155,9 +155,9 @@ fn classify_light(m: &Model, input: &[u8], cap: usize) -> bool {
             || input.windows(2).any(|w| w == b"\n\n"))
 }
 
-pub const RULE: &str = "cases = (input from {grammar-built FASTA documents, 1-3 byte mutations of them, byte soups over a structural alphabet}) x (capacity absolute 3..300 or relative to record extents/offsets/input length) x permissive policy x chunk/interrupt script x {next, records(), into_records()}; thorough adds the complete small-scope enumeration; sub-check huge-records: a few documents with one record of 8-18 MiB (beyond the doubling threshold of the standard policy) read with the default and with tiny capacities. Non-trivial = (>=1 record or an invalid start) and (a record or the leading blank region crosses a buffer refill, or CRLF present, or empty sequence, or missing final terminator, or blank lines). Distinct = hash(input, capacity, chunk script). Sub-check constructors: any input written to a temporary file and read through Reader::new (default 64 KiB capacity), from_path and from_path_with_capacity(3..5000): all three deliver the model's outcome.";
+pub const RULE: &str = "cases = (input from {grammar-built FASTA documents, 1-3 byte mutations of them, byte soups over a structural alphabet}) x (capacity absolute 3..300 or relative to record extents/offsets/input length) x permissive policy x chunk/interrupt script x {next, records(), into_records()}; thorough adds the complete small-scope enumeration; sub-check huge-records: a few documents with one record of 8-18 MiB (beyond the doubling threshold of the standard policy) read with the default and with tiny capacities. Non-trivial = (>=1 record or an invalid start) and (a record or the leading blank region crosses a buffer refill, or CRLF present, or empty sequence, or missing final terminator, or blank lines). Distinct = hash(input, capacity, chunk script). Sub-check constructors: any input written to a temporary file and read through Reader::new (default 64 KiB capacity), from_path and from_path_with_capacity(3..5000): all three deliver the model's outcome. Sub-check aligned-large: one record larger than a buffer of 64 KiB..128 KiB, its length solved so that a chosen structural byte (terminator of the header / sequence / separator / quality line, the '+') lies at the last byte (+-3) of the buffer when it is full at the initial capacity or after 1..2 doublings; LF / CRLF, whole or chunked reads, next() / record sets: outcome = model.";
 
-pub const RULE_FQ: &str = "cases = (input from {grammar-built FASTQ documents with an optional defect (wrong start byte, wrong separator byte, length mismatch, truncation at any byte, dropped line) at a generated record index, 1-3 byte mutations, byte soups}) x (capacity absolute 3..300 or relative to record extents/offsets/input length) x permissive policy x chunk/interrupt script x {next, records(), into_records()}; thorough adds the complete small-scope enumeration. Groups mixing LF and CRLF between sequence and quality line are outside the claimed domain: the comparison stops there (class mixed-terminator-excluded). Non-trivial = (>=1 record or a format error) and (crosses a buffer refill, or CRLF, or missing final terminator, or blank lines). Distinct = hash(input, capacity, chunk script). Sub-check constructors: any input written to a temporary file and read through Reader::new (default 64 KiB capacity), from_path and from_path_with_capacity(3..5000): all three deliver the model's outcome.";
+pub const RULE_FQ: &str = "cases = (input from {grammar-built FASTQ documents with an optional defect (wrong start byte, wrong separator byte, length mismatch, truncation at any byte, dropped line) at a generated record index, 1-3 byte mutations, byte soups}) x (capacity absolute 3..300 or relative to record extents/offsets/input length) x permissive policy x chunk/interrupt script x {next, records(), into_records()}; thorough adds the complete small-scope enumeration. Groups mixing LF and CRLF between sequence and quality line are outside the claimed domain: the comparison stops there (class mixed-terminator-excluded). Non-trivial = (>=1 record or a format error) and (crosses a buffer refill, or CRLF, or missing final terminator, or blank lines). Distinct = hash(input, capacity, chunk script). Sub-check constructors: any input written to a temporary file and read through Reader::new (default 64 KiB capacity), from_path and from_path_with_capacity(3..5000): all three deliver the model's outcome. Sub-check aligned-large: one record larger than a buffer of 64 KiB..128 KiB, its length solved so that a chosen structural byte (terminator of the header / sequence / separator / quality line, the '+') lies at the last byte (+-3) of the buffer when it is full at the initial capacity or after 1..2 doublings; LF / CRLF, whole or chunked reads, next() / record sets: outcome = model.";
 
 // ------------------------------------------------------------------------------------------------
 // the other constructors reach the same parser: new (default capacity), from_path, from_path_with_capacity
@@ -262,6 +262,9 @@ pub fn run_c02(tier: Tier) -> i32 {
     let h = super::huge::HugeModel(Format::Fastq);
     run.replays("huge-records", &h);
     run.generated("huge-records", &h, tier.pick(6, 60));
+    let al = super::huge::AlignedLarge(Format::Fastq);
+    run.replays("aligned-large", &al);
+    run.generated("aligned-large", &al, tier.pick(1_500, 30_000));
     let k = Constructors(Format::Fastq);
     run.replays("constructors", &k);
     run.generated("constructors", &k, tier.pick(20_000, 300_000));
@@ -275,7 +278,7 @@ pub fn run_c02(tier: Tier) -> i32 {
 }
 
 pub fn replay_c02(run: &mut Run, file: &std::path::Path) -> Option<bool> {
-    run.replay_file("model-differential", &ReadModel(Format::Fastq), file, true).or_else(|| run.replay_file("huge-records", &super::huge::HugeModel(Format::Fastq), file, true)).or_else(|| run.replay_file("constructors", &Constructors(Format::Fastq), file, true))
+    run.replay_file("model-differential", &ReadModel(Format::Fastq), file, true).or_else(|| run.replay_file("huge-records", &super::huge::HugeModel(Format::Fastq), file, true)).or_else(|| run.replay_file("constructors", &Constructors(Format::Fastq), file, true)).or_else(|| run.replay_file("aligned-large", &super::huge::AlignedLarge(Format::Fastq), file, true))
 }
 
 pub fn run(tier: Tier) -> i32 {
@@ -287,6 +290,9 @@ pub fn run(tier: Tier) -> i32 {
     let h = super::huge::HugeModel(Format::Fasta);
     run.replays("huge-records", &h);
     run.generated("huge-records", &h, tier.pick(6, 60));
+    let al = super::huge::AlignedLarge(Format::Fasta);
+    run.replays("aligned-large", &al);
+    run.generated("aligned-large", &al, tier.pick(1_500, 30_000));
     let k = Constructors(Format::Fasta);
     run.replays("constructors", &k);
     run.generated("constructors", &k, tier.pick(20_000, 300_000));
@@ -304,4 +310,5 @@ pub fn replay(run: &mut Run, file: &std::path::Path) -> Option<bool> {
         .or_else(|| run.replay_file("exhaustive-small-scope", &ReadModel(Format::Fasta), file, true))
         .or_else(|| run.replay_file("huge-records", &super::huge::HugeModel(Format::Fasta), file, true))
         .or_else(|| run.replay_file("constructors", &Constructors(Format::Fasta), file, true))
+        .or_else(|| run.replay_file("aligned-large", &super::huge::AlignedLarge(Format::Fasta), file, true))
 }
